@@ -1166,8 +1166,7 @@ func FromV3Operation(doc3 *openapi3.T, operation *openapi3.Operation) (*openapi2
 	if v := operation.RequestBody; v != nil {
 		// Find parameter name that we can use for the body
 		name := findNameForRequestBody(operation)
-		if name == "" && v.Ref == "" && (v.Value == nil || v.Value.Extensions["x-originalParamName"] == nil) {
-			// the name is needed only for an inline request body that does not carry its original name
+		if name == "" && needsBodyName(v) {
 			return nil, errors.New("could not find a name for request body")
 		}
 
@@ -1199,6 +1198,21 @@ func FromV3Operation(doc3 *openapi3.T, operation *openapi3.Operation) (*openapi2
 		result.Responses = resultResponses
 	}
 	return result, nil
+}
+
+// needsBodyName tells whether fromV3RequestBodies will use the name found for the body parameter: only for an
+// inline request body that does not carry its original name and has a media type that is not a form
+// (form media types become formData parameters, which have their own names).
+func needsBodyName(v *openapi3.RequestBodyRef) bool {
+	if v.Ref != "" || v.Value == nil || v.Value.Extensions["x-originalParamName"] != nil {
+		return false
+	}
+	for contentType := range v.Value.Content {
+		if contentType != "application/x-www-form-urlencoded" && contentType != "multipart/form-data" {
+			return true
+		}
+	}
+	return false
 }
 
 func FromV3RequestBody(name string, requestBodyRef *openapi3.RequestBodyRef, mediaType *openapi3.MediaType, components *openapi3.Components) (*openapi2.Parameter, error) {
